@@ -139,7 +139,6 @@ Definition i_guard (st : ist) (o : iop) : bool :=
            end
       else false
   | IDelete _ => true
-  | IDeleteMid _ _ => false
   end.
 
 Fixpoint i_run_g (st : ist) (ops : list iop) : option ist :=
@@ -156,7 +155,7 @@ Qed.
 
 Lemma i_step_agree st o : idx_agree st -> i_guard st o = true -> idx_agree (i_next st o).
 Proof.
-  intros A G. unfold i_next, i_step. destruct o as [id ks|id ks|id|id mid]; cbn in G; [| | |discriminate].
+  intros A G. unfold i_next, i_step. destruct o as [id ks|id ks|id]; cbn in G.
   - apply andb_true_iff in G. destruct G as [G1 G2]. apply negb_true_iff in G1. apply negb_true_iff in G2.
     pose proof (proj1 (amem_false _ _) G1) as Hf.
     destruct (i_kind st =? 4) eqn:K4.
